@@ -56,6 +56,7 @@ func (c *operatorCache) alloc() *FDOperator {
 	}
 	op := c.first
 	c.first = op.next
+	vp(vpCacheAlloc, unsafe.Pointer(op), int64(op.index), 0)
 	unlock(&c.locked)
 	return op
 }
@@ -68,6 +69,7 @@ func (c *operatorCache) freeable(op *FDOperator) {
 	op.reset()
 	lock(&c.freelocked)
 	c.freelist = append(c.freelist, op.index)
+	vp(vpCacheFreeable, unsafe.Pointer(op), int64(op.index), 0)
 	unlock(&c.freelocked)
 }
 
@@ -84,6 +86,7 @@ func (c *operatorCache) free() {
 		op.next = c.first
 		c.first = op
 	}
+	vp(vpCacheFree, unsafe.Pointer(c), int64(len(c.freelist)), 0)
 	c.freelist = c.freelist[:0]
 	unlock(&c.locked)
 }
